@@ -164,6 +164,12 @@ def run(run):
             n_pipe += n
             for key, detail in bad:
                 run.violation(key, detail, dict(c, kind="pipeline"))
+        # the laws that tie the propagators to one integral on ANY grid scale (near-unity magnifications on micron grids, short distances,
+        # chains of steps): shared with C10
+        badl, nl = c10.direct_laws(op, rng, 6)
+        n_pipe += nl
+        for key, detail in badl:
+            run.violation("fresnel-integral:" + key, detail, dict(kind="direct"))
         # orientation: model says the two-step output is mirrored exactly when d2 != d1
         orient = []
         for m in (0.5, 1.0, 2.0, 1.5):
@@ -197,6 +203,9 @@ def replay(run, case):
             a, t = orientation(op, case["m"], case["sign"])
             if not (np.all(np.sign(np.round(a, 1)) == np.sign(np.round(t, 1))) and np.abs(a - t).max() < 2.0):
                 run.violation("twoStepFresnel:orientation-mirrored", dict(a=a.tolist(), t=t.tolist()), case)
+        elif k == "direct":
+            for key, detail in c10.direct_laws(op, rng, 6)[0]:
+                run.violation("fresnel-integral:" + key, detail, case)
         elif k == "pipeline":
             bad, _ = c10.check_pipeline(op, case, c10._tables(), rng, keyprefix="fresnel-integral:")
             for key, detail in bad:
